@@ -376,9 +376,9 @@ theorem initB_append (b : Nat) (l : List Nat) (x : Nat) : initB b (l ++ [x]) = b
   | nil => rfl
   | cons c r ih => simp [initB, ih]
 
-theorem deserVarN_mono (dec : Dec) (emin emax : Nat) :
+theorem deserVarN_mono (dec : Dec) (emin emax sc : Nat) :
     ∀ (bnds : List Nat) (b0 : Nat) (s : Stream) (vs : List Val) (rest : Stream),
-      deserVarN dec emin emax (b0 :: bnds) s = some (vs, rest) → b0 ≤ lastB b0 bnds := by
+      deserVarN dec emin emax sc (b0 :: bnds) s = some (vs, rest) → b0 ≤ lastB b0 bnds := by
   intro bnds
   induction bnds with
   | nil => intro b0 s vs rest _; simp [lastB]
@@ -391,17 +391,19 @@ theorem deserVarN_mono (dec : Dec) (emin emax : Nat) :
       · cases h
       · split at h
         · cases h
-        · next v s1 hv =>
-          split at h
+        · split at h
           · cases h
-          · next vs' s2 hrec =>
-            have := ih stop s1 vs' s2 hrec
-            simp only [lastB]
-            omega
+          · next v s1 hv =>
+            split at h
+            · cases h
+            · next vs' s2 hrec =>
+              have := ih stop s1 vs' s2 hrec
+              simp only [lastB]
+              omega
 
-theorem deserVarN_sound (t : Ty) (dec : Dec) (hd : DecSound t dec) (emin emax : Nat) :
+theorem deserVarN_sound (t : Ty) (dec : Dec) (hd : DecSound t dec) (emin emax sc : Nat) :
     ∀ (bnds : List Nat) (b0 : Nat) (s : Stream) (vs : List Val) (rest : Stream),
-      deserVarN dec emin emax (b0 :: bnds) s = some (vs, rest) →
+      deserVarN dec emin emax sc (b0 :: bnds) s = some (vs, rest) →
       lastB b0 bnds - b0 ≤ s.length →
       vs.length = bnds.length ∧ vs.all (WT t) = true ∧
       fixedSection (vs.map fun v => (false, serialize t v)) b0
@@ -425,29 +427,31 @@ theorem deserVarN_sound (t : Ty) (dec : Dec) (hd : DecSound t dec) (emin emax : 
       · cases h
       · split at h
         · cases h
-        · next v s1 hv =>
-          split at h
+        · split at h
           · cases h
-          · next vs' s2 hrec =>
-            cases h
-            have hm := deserVarN_mono dec emin emax r stop s1 vs' _ hrec
-            simp only [lastB] at hs ⊢
-            generalize hL : lastB stop r = L at hs hm ⊢
-            obtain ⟨hw, hser, hs1⟩ := hd s (stop - b0) v s1 (by omega) hv
-            subst hs1
-            obtain ⟨hlen, hall, hfix, hvar, hrest⟩ :=
-              ih stop (s.drop (stop - b0)) vs' _ hrec (by rw [hL, List.length_drop]; omega)
-            rw [hL] at hvar hrest
-            have hsl : (serialize t v).length = stop - b0 := by
-              rw [hser]; exact List.length_take_of_le (by omega)
-            have e : L - b0 = (stop - b0) + (L - stop) := by omega
-            refine ⟨by simp [hlen], by simp [hw, hall], ?_, ?_, ?_⟩
-            · simp only [List.map_cons, fixedSection, initB, List.flatten_cons, hsl]
-              have : b0 + (stop - b0) = stop := by omega
-              rw [this, hfix]
-            · simp only [List.map_cons, varSection]
-              rw [hser, hvar, e, List.take_add]
-            · rw [hrest, e, List.drop_drop]
+          · next v s1 hv =>
+            split at h
+            · cases h
+            · next vs' s2 hrec =>
+              cases h
+              have hm := deserVarN_mono dec emin emax sc r stop s1 vs' _ hrec
+              simp only [lastB] at hs ⊢
+              generalize hL : lastB stop r = L at hs hm ⊢
+              obtain ⟨hw, hser, hs1⟩ := hd s (stop - b0) v s1 (by omega) hv
+              subst hs1
+              obtain ⟨hlen, hall, hfix, hvar, hrest⟩ :=
+                ih stop (s.drop (stop - b0)) vs' _ hrec (by rw [hL, List.length_drop]; omega)
+              rw [hL] at hvar hrest
+              have hsl : (serialize t v).length = stop - b0 := by
+                rw [hser]; exact List.length_take_of_le (by omega)
+              have e : L - b0 = (stop - b0) + (L - stop) := by omega
+              refine ⟨by simp [hlen], by simp [hw, hall], ?_, ?_, ?_⟩
+              · simp only [List.map_cons, fixedSection, initB, List.flatten_cons, hsl]
+                have : b0 + (stop - b0) = stop := by omega
+                rw [this, hfix]
+              · simp only [List.map_cons, varSection]
+                rw [hser, hvar, e, List.take_add]
+              · rw [hrest, e, List.drop_drop]
 
 theorem deserSeqWith_var_eq (dec : Dec) (l emin emax : Nat) (vc : Nat → Bool) (s : Stream)
     (scope : Nat) (h0 : ¬ scope = 0) (first : Nat) (hfirst : fromLE (s.take 4) = first)
@@ -457,7 +461,7 @@ theorem deserSeqWith_var_eq (dec : Dec) (l emin emax : Nat) (vc : Nat → Bool) 
       else if first % 4 != 0 then none
       else if !vc (first / 4) then none
       else if first / 4 = 0 then none
-      else (deserVarN dec emin emax (first :: ro.1 ++ [scope]) ro.2).map
+      else (deserVarN dec emin emax scope (first :: ro.1 ++ [scope]) ro.2).map
         fun (p : List Val × Stream) => (Val.seq p.1, p.2) := by
   subst hfirst hro
   simp [deserSeqWith, h0, readOffset]
@@ -535,7 +539,7 @@ theorem deserSeqWith_sound (t : Ty) (dec : Dec) (hd : DecSound t dec) (l emin em
               obtain ⟨more, s2⟩ := ro
               obtain ⟨hs2, hmlen, hmflat⟩ := hro
               simp only [List.cons_append] at hs2 hmlen hmflat h
-              cases hdv : deserVarN dec emin emax (first :: (more ++ [scope])) s2 with
+              cases hdv : deserVarN dec emin emax scope (first :: (more ++ [scope])) s2 with
               | none => simp [hdv] at h
               | some p =>
                 obtain ⟨vs, s'⟩ := p
@@ -545,7 +549,7 @@ theorem deserSeqWith_sound (t : Ty) (dec : Dec) (hd : DecSound t dec) (l emin em
                 have hs2' : s2 = s.drop first := by rw [hs2, List.drop_drop, e1]
                 subst hs2'
                 obtain ⟨hlen, hall, hfix, hvar, hrest⟩ :=
-                  deserVarN_sound t dec hd emin emax (more ++ [scope]) first (s.drop first) vs s'
+                  deserVarN_sound t dec hd emin emax scope (more ++ [scope]) first (s.drop first) vs s'
                     hdv (by rw [lastB_append, List.length_drop]; omega)
                 rw [lastB_append] at hvar hrest
                 rw [initB_append] at hfix
@@ -713,9 +717,9 @@ theorem deserScan_rest : ∀ (fs : List Ty), (∀ t ∈ fs, DecSound t (deser t)
         cases h
         rw [ih hts _ _ _ _ (by rw [List.length_drop]; omega) hrec, List.drop_drop]
 
-theorem deserDyn_mono : ∀ (fs : List Ty) (b0 : Nat) (bnds : List Nat) (d : Stream)
+theorem deserDyn_mono (sc : Nat) : ∀ (fs : List Ty) (b0 : Nat) (bnds : List Nat) (d : Stream)
     (dyn : List Val) (d2 : Stream), bnds.length = nvar fs →
-    deserDyn fs (b0 :: bnds) d = some (dyn, d2) → b0 ≤ lastB b0 bnds := by
+    deserDyn fs sc (b0 :: bnds) d = some (dyn, d2) → b0 ≤ lastB b0 bnds := by
   intro fs
   induction fs with
   | nil =>
@@ -744,17 +748,19 @@ theorem deserDyn_mono : ∀ (fs : List Ty) (b0 : Nat) (bnds : List Nat) (d : Str
             · cases h
             · split at h
               · cases h
-              · next vs' s2 hrec =>
-                have := ih stop r _ vs' s2 (by simp at hl; omega) hrec
-                simp only [lastB]
-                omega
+              · split at h
+                · cases h
+                · next vs' s2 hrec =>
+                  have := ih stop r _ vs' s2 (by simp at hl; omega) hrec
+                  simp only [lastB]
+                  omega
 
 /-- both passes of `Container.deserialize` together -/
-theorem container_var_sound : ∀ (fs : List Ty), (∀ t ∈ fs, DecSound t (deser t)) →
+theorem container_var_sound (sc : Nat) : ∀ (fs : List Ty), (∀ t ∈ fs, DecSound t (deser t)) →
     ∀ (s : Stream) (slots : List (Option Val)) (offs : List Nat) (s1 : Stream) (b0 : Nat)
       (bnds : List Nat) (d : Stream) (dyn : List Val) (d2 : Stream),
       deserScan fs s = some (slots, offs, s1) →
-      deserDyn fs (b0 :: bnds) d = some (dyn, d2) →
+      deserDyn fs sc (b0 :: bnds) d = some (dyn, d2) →
       offs = initB b0 bnds →
       fixedPartLen fs ≤ s.length →
       lastB b0 bnds - b0 ≤ d.length →
@@ -823,34 +829,36 @@ theorem container_var_sound : ∀ (fs : List Ty), (∀ t ∈ fs, DecSound t (des
             · cases hdyn
             · split at hdyn
               · cases hdyn
-              · next v dA hv =>
-                split at hdyn
+              · split at hdyn
                 · cases hdyn
-                · next dyn' d2' hdrec =>
-                  cases hdyn
-                  have hrl : r.length = nvar ts := by
-                    rw [← deserScan_offs_length _ _ _ _ _ hrec, hoffs', initB_length]
-                  have hm := deserDyn_mono ts stop r dA dyn' _ hrl hdrec
-                  simp only [lastB] at hd ⊢
-                  obtain ⟨hw, hser, hdA⟩ := hfs t (by simp) d (stop - b0) v dA (by omega) hv
-                  subst hdA
-                  obtain ⟨hws, hfix, htot, hvar, hrest⟩ :=
-                    ih hts _ _ _ _ stop r _ dyn' _ hrec hdrec hoffs'
-                      (by rw [List.length_drop]; omega) (by rw [List.length_drop]; omega)
-                  have hsl : (serialize t v).length = stop - b0 := by
-                    rw [hser]; exact List.length_take_of_le (by omega)
-                  have e : lastB stop r - b0 = (stop - b0) + (lastB stop r - stop) := by omega
-                  have h4 : (s.take 4).length = 4 := List.length_take_of_le (by omega)
-                  refine ⟨by simp [mergeSlots, WTs, hw, hws], ?_, ?_, ?_, ?_⟩
-                  · simp only [mergeSlots, serializeFields, hf, fixedSection, hsl]
-                    have e2 : b0 + (stop - b0) = stop := by omega
-                    have ht := toLE_fromLE (s.take 4)
-                    rw [h4, hb0] at ht
-                    rw [e2, hfix, ht, List.take_add]
-                  · simp only [mergeSlots, serializeFields, hf, fixedTotal, htot]
-                  · simp only [mergeSlots, serializeFields, hf, varSection]
-                    rw [hser, hvar, e, List.take_add]
-                  · rw [hrest, e, List.drop_drop]
+                · next v dA hv =>
+                  split at hdyn
+                  · cases hdyn
+                  · next dyn' d2' hdrec =>
+                    cases hdyn
+                    have hrl : r.length = nvar ts := by
+                      rw [← deserScan_offs_length _ _ _ _ _ hrec, hoffs', initB_length]
+                    have hm := deserDyn_mono sc ts stop r dA dyn' _ hrl hdrec
+                    simp only [lastB] at hd ⊢
+                    obtain ⟨hw, hser, hdA⟩ := hfs t (by simp) d (stop - b0) v dA (by omega) hv
+                    subst hdA
+                    obtain ⟨hws, hfix, htot, hvar, hrest⟩ :=
+                      ih hts _ _ _ _ stop r _ dyn' _ hrec hdrec hoffs'
+                        (by rw [List.length_drop]; omega) (by rw [List.length_drop]; omega)
+                    have hsl : (serialize t v).length = stop - b0 := by
+                      rw [hser]; exact List.length_take_of_le (by omega)
+                    have e : lastB stop r - b0 = (stop - b0) + (lastB stop r - stop) := by omega
+                    have h4 : (s.take 4).length = 4 := List.length_take_of_le (by omega)
+                    refine ⟨by simp [mergeSlots, WTs, hw, hws], ?_, ?_, ?_, ?_⟩
+                    · simp only [mergeSlots, serializeFields, hf, fixedSection, hsl]
+                      have e2 : b0 + (stop - b0) = stop := by omega
+                      have ht := toLE_fromLE (s.take 4)
+                      rw [h4, hb0] at ht
+                      rw [e2, hfix, ht, List.take_add]
+                    · simp only [mergeSlots, serializeFields, hf, fixedTotal, htot]
+                    · simp only [mergeSlots, serializeFields, hf, varSection]
+                      rw [hser, hvar, e, List.take_add]
+                    · rw [hrest, e, List.drop_drop]
 
 theorem sound_container (fs : List Ty) (hfs : ∀ t ∈ fs, DecSound t (deser t)) :
     DecSound (.container fs) (deser (.container fs)) := by
@@ -894,13 +902,13 @@ theorem sound_container (fs : List Ty) (hfs : ∀ t ∈ fs, DecSound t (deser t)
           · cases h
           · next dyn s2 hdyn =>
             cases h
-            have hm := deserDyn_mono fs first (offs' ++ [scope]) s1 dyn _
+            have hm := deserDyn_mono scope fs first (offs' ++ [scope]) s1 dyn _
               (by rw [← hol]; simp) hdyn
             rw [lastB_append] at hm
             have hs1 := deserScan_rest fs hfs s slots _ s1 (by omega) hscan
             subst hs1
             obtain ⟨hws, hfix, htot, hvar, hrest⟩ :=
-              container_var_sound fs hfs s slots _ _ first (offs' ++ [scope]) _ dyn _ hscan hdyn
+              container_var_sound scope fs hfs s slots _ _ first (offs' ++ [scope]) _ dyn _ hscan hdyn
                 (by rw [initB_append]) (by omega)
                 (by rw [lastB_append, List.length_drop]; omega)
             rw [lastB_append] at hvar hrest
